@@ -59,14 +59,30 @@ def check(chk: Check) -> None:
             cnt = ('call', 0, ('attr', ('attr', tp, 'value'), 'count'), (('const', '\n'),), ())
             from .. import actions as A_
             good, other = 0, 0
+            transformed = []
             for p_ in rm.paths:
                 for e in p_.events:
                     if e.kind == 'aug_attr' and e.attr == 'lineno':
-                        if e.op == '+' and A_.strip_ids(freeze(e.value)) == cnt:
+                        v_ = A_.strip_ids(freeze(e.value))
+                        if e.op == '+' and v_ == cnt:
                             good += 1
                         else:
                             other += 1
-            if good and not other:
+                            # <something>.count('\n') where <something> was made from the matched text by string methods
+                            if e.op == '+' and isinstance(v_, tuple) and v_[:1] == ('call',) and isinstance(v_[2], tuple) and v_[2][:1] == ('attr',) \
+                                    and v_[2][2] == 'count' and v_[3] == (('const', '\n'),):
+                                def has_call(t):
+                                    if isinstance(t, tuple):
+                                        if t[:1] == ('call',):
+                                            return True
+                                        return any(has_call(x) for x in t)
+                                    return False
+                                if has_call(v_[2][1]):
+                                    transformed.append(show(v_[2][1])[:120])
+            if transformed:
+                chk.bad(R1, 't_%s' % name, where, 'the line breaks are counted in a text that was rewritten first (%s): replacements can add or '
+                                                   'remove line breaks that are not in the source, so later lines are reported wrongly' % transformed[0])
+            elif good and not other:
                 chk.ok(R1, 't_%s' % name, where, 'advances the counter by t.value.count("\\n") on every path')
             elif not good and not other:
                 chk.bad(R1, 't_%s' % name, where, 'the rule can match text containing line breaks but never advances the line counter: '
